@@ -1,5 +1,7 @@
 """Source of truth for MANIFEST.json (run ./gen_manifest.py after editing)."""
 ENGINES = [
+    {"name": "c11 (chain x hook tables vs reference loop)", "path": "vlib/props/c11.py", "serves_properties": ["C11"], "kind_free_text": "exhaustive chains of managers x hook tables, reference loop replayed on fill_context/extract"},
+    {"name": "c12 (towers, nestings, customize product, IdentityDict BFS)", "path": "vlib/props/c12.py", "serves_properties": ["C12"], "kind_free_text": "explicit-state search of IdentityDict vs model + exhaustive wrapper towers / nestings / flag products"},
     {"name": "chainspace (E2)", "path": "vlib/chainspace.py", "serves_properties": ["C03", "C16", "C06"], "kind_free_text": "all await/yield-from/asend/athrow/aclose/async-for chains up to length N, rebuilt and advanced to every suspension point"},
     {"name": "c08 (target/layout product + stdlib corpus)", "path": "vlib/props/c08.py", "serves_properties": ["C08"], "kind_free_text": "exhaustive product of with layouts x targets; complete stdlib with-item corpus vs ast"},
     {"name": "progspace (E1)", "path": "vlib/progspace.py", "serves_properties": ["C01", "C02", "C06", "C08", "C20"], "kind_free_text": "grammar-complete enumeration of with/try/loop programs by AST size, rendered for 4 function kinds, decision-prefix DFS over all paths, step driver with shadow model"},
@@ -9,6 +11,20 @@ ENGINES = [
 NOTES = "All checks are bounded-exhaustive explorations of the real implementation (no sampling); see DESIGN.md."
 NOT_APPLICABLE = {}
 CHECKS = {
+    "C11": {
+        "engine": "c11 (chain x hook tables vs reference loop)",
+        "category": "model_checking",
+        "technique": "explicit enumeration of all wrapper chains x hook-result tables; each trace of the reference loop is replayed on the real fill_context()/extract() and hook call logs and final Context fields are compared",
+        "text": "Every chain of synthetic and generator-based managers within the length bound, with every assignment of elaborate effects and terminal unwrap result, exiting or not, bare or inside extract (suspended in the body and in __aexit__), is run on the implementation and compared with a reference loop: call order elab/unwrap, obj replacement, inner_stack/children reset before re-elaboration, PRUNE hides and stops, None stops, >100 steps errors, bare == in-extract.",
+        "note": "Trusts the 40-line reference loop in vlib/props/c11.py; 100 steps exactly is unconstrained.",
+    },
+    "C12": {
+        "engine": "c12 (towers, nestings, customize product, IdentityDict BFS)",
+        "category": "model_checking",
+        "technique": "explicit-state BFS to a fixpoint of IdentityDict against a list-of-pairs model (every transition executed on the real object) + exhaustive enumeration of wrapper towers, nested-name paths and customize flag products",
+        "text": "IdentityDict is explored to a fixpoint (79 states) over 3 keys (two equal-but-distinct) x 2 values x all mapping operations against a reference model. get_code is checked on every well-formed wrapper tower up to depth D and every nesting path up to depth 3 against the code object the base function records when actually called; registrations must hit exactly that object, not an equal one, latest wins; all 2^3 x 3 x 3 customize configurations must show their effect on Frame.hide / hide_line / callee presence / replacement.",
+        "note": "Oracle for 'the code that runs' is sys._getframe().f_code recorded by the base function itself.",
+    },
     "C06": {
         "engine": "progspace (E1)",
         "category": "exploration",
